@@ -254,11 +254,11 @@ theorem timer_thread_no_lost_wakeup (n : Nat) (sched : List (Nat × TT.Env)) (ti
     · rw [ht0, hp] at h; cases h
     · rw [hidle _ ht0] at h; cases h
 
--- non-vacuity: the adder installs a head entry after the timer thread's `schedule_timer`; its take + unpark set the token
-example : let s := TT.run (TT.init 2) [(0, .go), (0, .go), (0, .go), (0, .sched false), (1, .startAdd true), (1, .go), (1, .go), (1, .go)]
+-- non-vacuity: the adder installs a head entry after the timer thread's last look at the heap; its take + unpark set the token
+example : let s := TT.run (TT.init 2) [(0, .go), (0, .go), (0, .go), (0, .peek), (0, .sched false), (1, .startAdd), (1, .linked true), (1, .go), (1, .go)]
     s.pcs 0 = .rPark false ∧ s.pcs 1 = .idle ∧ s.sh.seen < s.sh.ver ∧ s.sh.token = true := by decide
--- and the racy order: the adder installs between `wakeup.store` and `schedule_timer`: seen, no wake-up needed, handle taken
-example : let s := TT.run (TT.init 2) [(0, .go), (0, .go), (1, .startAdd true), (1, .go), (0, .go), (0, .sched true), (1, .go), (1, .go)]
+-- and the racy order: the adder installs between `wakeup.store` and the look at the heap: seen, handle taken, token set
+example : let s := TT.run (TT.init 2) [(0, .go), (0, .go), (1, .startAdd), (1, .linked true), (0, .go), (0, .peek), (0, .sched true), (1, .go), (1, .go)]
     s.pcs 0 = .rPark true ∧ s.sh.seen = s.sh.ver ∧ s.sh.token = true := by decide
 
 /-! ## (iv) the users of a time-out -/
